@@ -117,7 +117,7 @@ var situations = []string{"variable", "field", "tag", "variable+field", "variabl
 	// the variable lives in a block between the top level and the block of the call
 	"variable@outer-block", "variable@for-in", "variable@for-init", "variable@top-from-depth2", "variable@outer-block+field"}
 
-var values = []any{nil, true, int64(5), int64(0), 2.5, "plain", "", "  padded \t", "a%20b%2Fc", "%zz", "{\"a\": 1}", "MiXed é", []any{int64(1), "x"}, map[string]any{"k": 2.0}}
+var values = []any{nil, true, int64(5), int64(0), 2.5, "plain", "", "  padded \t", "a%20b%2Fc", "%zz", "1%2B1%3D2 c%2b%2b a+b %25 %2520", "{\"a\": 1}", "MiXed é", []any{int64(1), "x"}, map[string]any{"k": 2.0}}
 
 type builtin struct {
 	name string
@@ -183,7 +183,9 @@ var builtins = []builtin{
 	}},
 	{"uppercase", func(k func() *gen.Node) [][]*gen.Node { return one(gen.NCall("uppercase", k())) }},
 	{"replace", func(k func() *gen.Node) [][]*gen.Node {
-		return [][]*gen.Node{{gen.NCall("replace", k(), str("[a-z]+"), str("<$0>"))}, {gen.NCall("replace", k(), str("("), str("x"))}, {gen.NCall("replace", k(), str(""), str("-"))}}
+		return [][]*gen.Node{{gen.NCall("replace", k(), str("[a-z]+"), str("<$0>"))}, {gen.NCall("replace", k(), str("("), str("x"))}, {gen.NCall("replace", k(), str(""), str("-"))},
+			// the failing call as the value of another builtin: the error is reported through that call
+			{gen.NCall("add_key", id("o2"), gen.NCall("replace", k(), str("a(b"), str("x")))}, {gen.NIf([]*gen.Node{gen.NBool(true)}, [][]*gen.Node{{gen.NCall("add_key", id("o2"), gen.NCall("replace", k(), str("[z-a]"), str("x")))}}, nil, false)}}
 	}},
 	{"url_decode", func(k func() *gen.Node) [][]*gen.Node { return one(gen.NCall("url_decode", k())) }},
 }
